@@ -103,7 +103,7 @@ def run(ck):
     traces, meta = [], []
     for ops in hs:
         # all option combinations for short histories, a sample for the longer ones
-        opts_list = OPTS if len(ops) <= 3 else rnd.sample(OPTS, 4 if ck.tier == "quick" else 12)
+        opts_list = OPTS if len(ops) <= 3 else rnd.sample(OPTS, 4 if ck.tier == "quick" else (8 if len(ops) == 4 else 3))
         for opts in opts_list:
             traces.append(run_hist(opts, ops, ck.seed))
             meta.append((opts, ops))
